@@ -186,3 +186,21 @@ def widening_shifts(F):
                 out.append((e, L, p["iw"], p, lhs_const, c))
             break
     return out
+
+
+def path_end(p):
+    """('return'|'leave'|'dead'|'throw', None) or ('back', header block)"""
+    if p.outcome == "back":
+        for e in reversed(p.events):
+            if e.kind == "end":
+                return ("back", e.extra[1])
+    return (p.outcome, None)
+
+
+def sv_mentions(sv, target):
+    """target SV occurs somewhere inside sv"""
+    if sv == target:
+        return True
+    if isinstance(sv, (tuple, frozenset)):
+        return any(sv_mentions(x, target) for x in sv if isinstance(x, (tuple, frozenset)))
+    return False
